@@ -214,7 +214,7 @@ def check(case, obs):
     # ---- channel-dependent attributes
     obs.claim('names', tuple(d.channels) == tuple(c['names']), lambda: 'channels %r' % (d.channels,))
     obs.claim('labels', list(d.channel_labels()) == list(c['labels']), lambda: 'labels %r vs %r' % (d.channel_labels(), c['labels']))
-    obs.claim('range', [list(r) for r in d.range()] == [[0.0, R - 1.0] for R in c['ranges']]
+    obs.claim('range', [[float(v) for v in r] for r in d.range()] == [[0.0, R - 1.0] for R in c['ranges']]      # (as Python floats: exact)
               and list(d.resolution()) == list(c['ranges']), lambda: 'range/resolution %r %r' % (d.range(), d.resolution()))
     exp_at = []
     for s in c['pne']:
